@@ -400,3 +400,17 @@ Lemma library_donations :
   Gen_tree_util.tree_add_eq_donates = [0] /\ Gen_tree_util.tree_weight_eq_donates = [0] /\
   Gen_c10_optimizers.optax_apply_donates = [].
 Proof. repeat split; reflexivity. Qed.
+
+(* the key kept in the new aggregator state, as found in the source: how many first-components of
+   jax.random.split lie between it and the old key; next_key (C10_rng_state_threaded) is that iterate *)
+Definition source_key_depth (a : C10_alg) : nat :=
+  match a with
+  | QUniform | QUniformArith => Gen_c10_compression.uniform_stochastic_quantizer_key_depth
+  | QRotated => Gen_c10_compression.rotated_uniform_stochastic_quantizer_key_depth
+  | QDrive => Gen_c10_compression.structured_drive_quantizer_key_depth
+  | QTern => Gen_c10_compression.terngrad_quantizer_key_depth
+  | _ => 0
+  end.
+
+Lemma next_key_is_source_depth a k : is_agg a = true -> next_key a k = Nat.iter (source_key_depth a) split0 k.
+Proof. destruct a; cbn; try discriminate; reflexivity. Qed.
